@@ -1,10 +1,14 @@
 import Driver.C01
+import Driver.C14
+import Driver.C15
 /-! Line-protocol driver: one request per line `Cxx <op> <args…>`, one answer
 per line. Executes the Lean models for the correspondence check. -/
 
 def dispatch (line : String) : String :=
   match line.trimAscii.toString.splitOn " " with
   | "C01" :: args => Driver.C01.handle args
+  | "C14" :: args => Driver.C14.handle args
+  | "C15" :: args => Driver.C15.handle args
   | ["ping"] => "pong"
   | _ => "bad-op"
 
